@@ -332,6 +332,75 @@ func genMalformed(r *rng.R) corr.Case {
 	return corr.Case{Tag: "malformed", Lines: lines}
 }
 
+func (s *sim) clone() *sim {
+	c := &sim{group: s.group, shards: s.shards}
+	for _, k := range s.keys {
+		nk := &simKey{writer: k.writer, readers: map[int]bool{}, pend: append([]int{}, k.pend...)}
+		for r := range k.readers {
+			nk.readers[r] = true
+		}
+		c.keys = append(c.keys, nk)
+	}
+	for _, t := range s.th {
+		nt := &simThread{todo: append([]int{}, t.todo...), write: t.write, parked: t.parked, held: map[int]bool{}}
+		for k, w := range t.held {
+			nt.held[k] = w
+		}
+		c.th = append(c.th, nt)
+	}
+	return c
+}
+
+// enumScripts: every script of at most `depth` valid single-key calls by 3 threads over 2 keys (first call by thread 0
+// on key 0, by symmetry); used by the thorough tier on all four locker types.
+func enumScripts(depth int) [][]string {
+	var out [][]string
+	var rec func(s *sim, ops []string)
+	rec = func(s *sim, ops []string) {
+		if len(ops) > 0 {
+			out = append(out, append([]string{}, ops...))
+		}
+		if len(ops) == depth {
+			return
+		}
+		for t := 0; t < 3; t++ {
+			if s.th[t].parked || (len(ops) == 0 && t != 0) {
+				continue
+			}
+			for k := 0; k < 2; k++ {
+				if len(ops) == 0 && k != 0 {
+					continue
+				}
+				if w, ok := s.th[t].held[k]; ok {
+					c := s.clone()
+					c.unlock(t, k)
+					rec(c, append(ops, fmt.Sprintf("%s %d %d", map[bool]string{true: "unlock", false: "runlock"}[w], t, k)))
+					continue
+				}
+				for _, w := range []bool{true, false} {
+					c := s.clone()
+					c.call(t, w, []int{k})
+					rec(c, append(ops, fmt.Sprintf("%s %d %d", map[bool]string{true: "lock", false: "rlock"}[w], t, k)))
+				}
+			}
+		}
+	}
+	rec(newSim(false, 3, []int{0, 0}), nil)
+	return out
+}
+
+var enumCache [][]string
+
+func enumCase(i int) corr.Case {
+	inits := []string{"init kl mod 1 3 2 0 0", "init tkl str 1 3 2 0 0", "init klg mod 2 3 2 0 1", "init tkg xh 2 3 2 1 0"}
+	ops := enumCache[i/len(inits)]
+	lines := append([]string{inits[i%len(inits)]}, ops...)
+	lines = append(lines, "counts 0", "drain", "entries")
+	return corr.Case{Tag: "exhaustive-small", Lines: lines}
+}
+
+const enumDepth = 4
+
 func fixedCases() []corr.Case {
 	mk := func(tag string, ls ...string) corr.Case { return corr.Case{Tag: tag, Lines: ls} }
 	var out []corr.Case
@@ -372,7 +441,10 @@ func spec() corr.Spec {
 			case "quick":
 				return 800
 			case "thorough":
-				return 16000
+				if enumCache == nil {
+					enumCache = enumScripts(enumDepth)
+				}
+				return 4*len(enumCache) + 6000
 			}
 			return 8000
 		},
@@ -383,6 +455,14 @@ func spec() corr.Spec {
 			return 14
 		},
 		Gen: func(r *rng.R, tier string, i int) corr.Case {
+			if tier == "thorough" {
+				if enumCache == nil {
+					enumCache = enumScripts(enumDepth)
+				}
+				if i < 4*len(enumCache) {
+					return enumCase(i)
+				}
+			}
 			n := r.Range(6, 22)
 			if tier != "quick" && r.Chance(1, 5) {
 				n = r.Range(20, 40)
@@ -402,7 +482,7 @@ func spec() corr.Spec {
 				return genMalformed(r)
 			}
 		},
-		Run: runScript,
+		Run: runIsolated,
 		TOnly: func(line string) bool {
 			return strings.HasPrefix(line, "counts") || strings.HasPrefix(line, "entries")
 		},
@@ -419,7 +499,7 @@ func spec() corr.Spec {
 			}
 			return parked && calls >= 4
 		},
-		Rule: "scripts of lock/rlock/unlock/runlock/locks/rlocks/unlocks/runlocks by 2..6 threads over 1..4 keys on KeyLocker, KeyLockerGrp, TKeyLocker[int|string], TKeyLockerGrp[int|string] (modulo / xxhash routing, 1,2,3,73 shards; shard patterns: one shard, opposite to key order, random); each call runs in its own goroutine until it returns or parks (quiescence from goroutine states); classes: order-respecting multi-key, single-key, hot key (1..2 keys, up to 6 threads), unordered (deadlocks allowed), malformed lines; every script ends with drain + entries; non-trivial = some call parked and >= 4 calls ran; distinct = distinct script text",
+		Rule: "scripts of lock/rlock/unlock/runlock/locks/rlocks/unlocks/runlocks by 2..6 threads over 1..4 keys on KeyLocker, KeyLockerGrp, TKeyLocker[int|string], TKeyLockerGrp[int|string] (modulo / xxhash routing, 1,2,3,73 shards; shard patterns: one shard, opposite to key order, random); each call runs in its own goroutine until it returns or parks (quiescence from goroutine states); thorough adds every script of <= 4 valid single-key calls by 3 threads over 2 keys on all four lockers; classes: order-respecting multi-key, single-key, hot key (1..2 keys, up to 6 threads), unordered (deadlocks allowed), malformed lines; every script ends with drain + entries; non-trivial = some call parked and >= 4 calls ran; distinct = distinct script text",
 		Assumptions: []string{
 			"sync.RWMutex / sync.Mutex behave as documented (writer preference; a blocked writer excludes later readers); pending writers are admitted in arrival order when nothing else runs (observed, not relied upon by the theorems: the model admits any pending writer)",
 			"a runnable goroutine eventually runs; a holder eventually unlocks (premise of the deadlock clause)",
